@@ -253,6 +253,10 @@ def run_case(kind, q):
         elif kind == "integration":
             shape = tuple(q["shape"])
             frames = rng.poisson(20, (q["nframes"],) + shape).astype(q["dtype"])
+            if q.get("level"):
+                # counts on a large constant level (summed / offset detector data in a 32- or 64-bit integer dtype): exact in the
+                # integer dtype and in float64
+                frames = frames + np.asarray(q["level"], dtype=q["dtype"])
             pat = impl.pattern_from(q["pattern"])
             if q.get("asym"):
                 from libertem_blobfinder.common import patterns as pt_
@@ -271,9 +275,14 @@ def run_case(kind, q):
             for f in range(q["nframes"]):
                 f64 = frames[f].astype(np.float64)
                 for k_, p in enumerate(centers[f]):
-                    tot = float((mask * refimpl.window(f64, c, p)).sum())      # zero-padded window, plain sum
+                    win_ = mask * refimpl.window(f64, c, p)
+                    tot = float(win_.sum())      # zero-padded window, plain sum
                     got = float(res["integration"].data[f, k_])
-                    if abs(got - tot) > 1e-4 * max(1.0, abs(tot)):
+                    # every pixel value is exact in float64 (and in float32 for float32 frames) and so is each product with the
+                    # float64 mask up to one rounding: the sum may differ by float64 summation error only
+                    # ... plus the rounding of the result to the result buffer's dtype (float32 for 8/16-bit and float32 frames)
+                    rdt_ = np.asarray(res["integration"].data).dtype
+                    if abs(got - tot) > 1e-9 * float(np.abs(win_).sum()) + 1e-9 + 4 * float(np.finfo(rdt_).eps) * float(np.abs(win_).sum()) * (rdt_ == np.float32):
                         msgs.append(f"IntegrationUDF frame {f} peak {p.tolist()}: {got} != masked sum {tot}")
                         break
     return msgs[:6]
@@ -331,5 +340,8 @@ def search(ctx, boost=1, focus=()):
                 centers[f_, j_, 1 - ax_] = int(rng.integers(0, shape[1 - ax_]))
         q = {"seed": int(rng.integers(1 << 30)), "pattern": pat, "shape": shape, "nframes": nfr, "centers": centers.tolist(),
              "partitions": partitions_of(rng, nfr), "dtype": dtype, "asym": k % 2 == 1 and k >= 2}
+        if k % 3 == 2 and k >= 2:
+            q["dtype"], q["level"] = [("int32", 2 ** 25), ("uint32", 2 ** 31), ("int64", 2 ** 40), ("uint64", 2 ** 45)][(k // 3) % 4]
+            ctx.count("integration_level_" + q["dtype"])
         ctx.oracle_case("integration", q, run_case("integration", q), nontrivial=nfr > 1)
         ctx.count("integration")
